@@ -38,10 +38,11 @@ const (
 	actReadDL     action = "readdeadline"
 	actHoldClose  action = "holdclose"  // Close (x2) while the endpoint is inside an emission (holds the write lock)
 	actHoldPeerCN action = "holdreply"  // user Close while the reply to the peer's close_notify is being emitted
+	actStallDL    action = "stalldeadline" // a Write stalled in a back-pressured transport is interrupted by the write deadline (set before or during the stall)
 	actStallClose action = "stallclose" // Close (x2) while an emission is stalled in a back-pressured transport (honours deadlines, never completes by itself)
 )
 
-var allActions = []action{actClose1, actClose2, actClose3, actPeerClose, actBothClose, actAlert0, actCtx, actReadDL, actHoldClose, actHoldPeerCN, actStallClose}
+var allActions = []action{actClose1, actClose2, actClose3, actPeerClose, actBothClose, actAlert0, actCtx, actReadDL, actHoldClose, actHoldPeerCN, actStallClose, actStallDL}
 
 func closedClass(err error) bool {
 	if err == nil {
@@ -235,6 +236,63 @@ func c16Run(t *testing.T, p *world.PKI, v checks.Variant, clientSide bool, pos i
 			finish(w, pr, n, x, y, bad)
 			o.NonTrivial = true
 			o.Class = fmt.Sprintf("holdclose/%s/est=%v", stage, est)
+			return
+		}
+
+		if act == actStallDL {
+			// pos selects the variant: 0 = deadline set before the Write, 1 = deadline set while the Write is
+			// already parked in the transport, 2 = as 1 but the deadline is moved twice (later, then earlier).
+			if pos > 2 {
+				o.Skip = true
+				pr.CloseAll()
+				return
+			}
+			_ = n.Pump(20*time.Second, pr.BothDone)
+			if !pr.BothOK() {
+				o.Skip = true
+				pr.CloseAll()
+				return
+			}
+			n.Flush()
+			st := x.PC.StallWrite(0)
+			if pos == 0 {
+				_ = x.Conn.SetWriteDeadline(time.Now().Add(50 * time.Millisecond))
+			}
+			wr := startWrite(w, x, "stalled-payload")
+			w.Settle()
+			if !st.IsHit() {
+				bad("the Write did not reach the transport")
+			}
+			switch pos {
+			case 1:
+				_ = x.Conn.SetWriteDeadline(time.Now().Add(50 * time.Millisecond))
+			case 2:
+				_ = x.Conn.SetWriteDeadline(time.Now().Add(5 * time.Second))
+				w.Settle()
+				_ = x.Conn.SetWriteDeadline(time.Now().Add(50 * time.Millisecond))
+			}
+			w.Settle()
+			if wr.Done() {
+				bad("the stalled Write returned before its deadline: %v", wr)
+			}
+			w.Sleep(51 * time.Millisecond)
+			if !wr.Done() {
+				bad("a Write stalled in the transport was not interrupted by the write deadline (transport write: %q)", st.How())
+				close(st.Release)
+				w.Settle()
+			} else if _, e := wr.Result(); !deadlineClass(e) {
+				bad("the Write interrupted by its deadline returned %v (want a deadline error)", e)
+			}
+			x.PC.Unstall()
+			// the connection stays usable once the deadline is cleared
+			_ = x.Conn.SetWriteDeadline(time.Time{})
+			got, rerr, werr := pr.Transfer(n, x, y, []byte("after-write-deadline"), 3*time.Second)
+			if rerr != nil || werr != nil || string(got) != "after-write-deadline" {
+				bad("connection unusable after a write deadline: read=%v write=%v", rerr, werr)
+			}
+			finish(w, pr, n, x, y, bad)
+			o.NonTrivial = true
+			o.Class = fmt.Sprintf("stalldeadline/v%d/%s", pos, st.How())
 			return
 		}
 
